@@ -55,7 +55,7 @@ VARIANTS = ('alias', 'colon', 'extra-parens', 'minimal-parens', 'mix', 'semicolo
 
 class C15(Prop):
     id = 'C15'
-    rule_added = 'The LTL front end also online: pastify() + update() per sample, under sampling periods {1 s, 500 ms, 250 ms, 1000 ms, 2 s, 3 s}, against the STL front end driven the same way. The unless law is also run under another sampling period x default unit. The unless law is also run under an interface-aware semantics with a random io assignment. 36 enumerated two-time-scale spellings (unit suffixes vs plain numbers of the default unit, keywords vs aliases; online and offline).'
+    rule_added = 'Enumerated: chains of 4 and 5 operands of one binary operator, nested left, right and balanced. The LTL front end also online: pastify() + update() per sample, under sampling periods {1 s, 500 ms, 250 ms, 1000 ms, 2 s, 3 s}, against the STL front end driven the same way. The unless law is also run under another sampling period x default unit. The unless law is also run under an interface-aware semantics with a random io assignment. 36 enumerated two-time-scale spellings (unit suffixes vs plain numbers of the default unit, keywords vs aliases; online and offline).'
     rule = ('a generated formula is printed canonically (keywords, fully parenthesised) and in variant spellings: all '
             'aliases (G F U W S O H X Y sX sY ! & | -> <->), ":" separators, redundant parentheses, parentheses '
             'dropped wherever the grammar precedence/left-associativity makes them redundant (precedence table '
@@ -364,6 +364,31 @@ class C15(Prop):
                              'vseed': rng.randrange(1 << 30)})
             done += 1
         ctx.count('precedence-pairs-enumerated', done)
+        # chains: 4 and 5 operands joined by one and the same binary operator, nested to the left, to the right and
+        # balanced - printed with the minimal parentheses the grammar's associativity allows (for the direction the
+        # grammar groups in: none at all) against the fully parenthesised text.  iff, xor, -, /, implies, since, until
+        # are not associative in the quantitative semantics: the grouping matters.
+        chains = 0
+        w, u = lang.V('w'), lang.V('req')
+        for o in self.BIN:
+            if (hash(o) if False else self.BIN.index(o)) % ctx.nshards != ctx.shard % max(1, min(ctx.nshards, len(self.BIN))):
+                continue
+            for ops in ([x, y, z, w], [x, y, z, w, u]):
+                if ctx.out_of_time():
+                    break
+                left = ops[0]
+                for k in ops[1:]:
+                    left = mk(o, left, k)
+                right = ops[-1]
+                for k in reversed(ops[:-1]):
+                    right = mk(o, k, right)
+                bal = mk(o, mk(o, ops[0], ops[1]), mk(o, ops[2], ops[3])) if len(ops) == 4 else \
+                    mk(o, mk(o, ops[0], ops[1]), mk(o, ops[2], mk(o, ops[3], ops[4])))
+                for f in (left, right, bal):
+                    self.check(ctx, {'formula': f, 'data': lang.gen_trace(rng, ['x', 'y', 'z', 'w', 'req'], rng.randint(3, 6)),
+                                     'vseed': rng.randrange(1 << 30)})
+                    chains += 1
+        ctx.count('same-operator-chains-enumerated', chains)
         if ctx.shard == 0:
             self.two_time_scales(ctx)
 
